@@ -3,6 +3,7 @@
   Statements are FIXED: prove them exactly as stated (helper lemmas go above them or in Cgp/Proofs/C17.lean).
 -/
 import Cgp.Operators
+import Cgp.Toy
 namespace Cgp.Props.C17
 open Cgp Cgp.Xdr Cgp.Operators
 
@@ -244,5 +245,78 @@ theorem rejected_unchanged (w : World τ) (op : Op) (e : Err) (h : (step tgt w o
     cases hA : execute tgt w.self w.st w.ts au o c f args with
     | error e => simp
     | ok r => obtain ⟨ts', v⟩ := r; simp [hA] at h
+
+/-! ### non-vacuity (the model RUN in the kernel on a concrete history) -/
+section NonVacuity
+open Cgp.Toy
+
+def opsAddr : Addr := ⟨true, List.replicate 32 4⟩
+def tgtAddr : Addr := ⟨true, List.replicate 32 5⟩
+def op1 : Addr := ⟨false, List.replicate 32 11⟩
+def op2 : Addr := ⟨false, List.replicate 32 12⟩
+def stranger : Addr := ⟨false, List.replicate 32 13⟩
+/-- the target: an accumulator at `tgtAddr` with one entry point "f" that only the operators contract may call; it adds its
+    argument to its state and returns the new total; anything else traps -/
+def tgt0 : Target Nat := fun n call =>
+  if call.contract = tgtAddr ∧ call.func = [102] ∧ call.invoker = opsAddr then
+    match call.args with
+    | [.u64 k] => some (n + k, .u64 (n + k))
+    | _ => none
+  else none
+def w0 : World Nat := { self := opsAddr, st := { owner := owner0, isOp := fun _ => false }, ts := 0 }
+def opsH : List Op :=
+  [ .execute [op1] op1 tgtAddr [102] [.u64 5],       -- not an operator yet: refused
+    .add [stranger] op1,                             -- not the owner: refused
+    .add [owner0] op1,
+    .add [owner0] op1,                               -- already added: refused
+    .execute [op1] op1 tgtAddr [102] [.u64 5],       -- forwarded: the target returns 5
+    .execute [] op1 tgtAddr [102] [.u64 5],          -- the operator did not authorise: refused
+    .execute [op1] op1 tgtAddr [103] [.u64 5],       -- the target traps: refused
+    .execute [op2] op2 tgtAddr [102] [.u64 5],       -- not an operator: refused
+    .remove [owner0] op1,
+    .execute [op1] op1 tgtAddr [102] [.u64 7],       -- no longer an operator: refused
+    .remove [owner0] op1,                            -- not an operator: refused
+    .add [owner0] op2,
+    .execute [op2] op2 tgtAddr [102] [.u64 7] ]      -- forwarded: the target returns 12
+def errOf : Obs → Option Err | .err e => some e | _ => none
+def valOf : Obs → Option Nat | .value (.u64 n) => some n | _ => none
+
+/-- `membership_history` and `execute_iff` on a concrete history: an address executes through the contract exactly while it is
+    a member — refused before it is added, forwarded (the target's state and return value show it, exactly once) after, refused
+    again after it is removed; the membership computed from the history (`memberAfter`) agrees with the state at every point and
+    takes both values; the hypotheses of `forward_exact`, `target_failure_aborts`, `unauthorised_never_forwards`,
+    `set_changes_only_by_owner`, `target_touched_only_by_execute` and `add_effect` hold at the corresponding calls. -/
+theorem operators_history_nonvacuous :
+    (run tgt0 w0 opsH).2.map errOf =
+      [some .notAnOperator, some .unauthorized, none, some .operatorAlreadyAdded, none, some .unauthorized, some .targetFailed,
+       some .notAnOperator, none, some .notAnOperator, some .notAnOperator, none, none] ∧
+    (run tgt0 w0 opsH).2.map valOf = [none, none, none, none, some 5, none, none, none, none, none, none, none, some 12] ∧
+    (run tgt0 w0 opsH).1.ts = 12 ∧
+    [0, 3, 5, 9, 13].map (fun n => (run tgt0 w0 (opsH.take n)).1.st.isOp op1) = [false, true, true, false, false] ∧
+    [0, 3, 5, 9, 13].map (fun n => memberAfter op1 (w0.st.isOp op1) (opsH.take n) (run tgt0 w0 (opsH.take n)).2) =
+      [false, true, true, false, false] ∧
+    [0, 3, 5, 9, 13].map (fun n => (run tgt0 w0 (opsH.take n)).1.st.isOp op2) = [false, false, false, false, true] ∧
+    memberAfter op2 (w0.st.isOp op2) opsH (run tgt0 w0 opsH).2 = true ∧
+    -- `execute_iff` (right-hand side) and `forward_exact` at the fifth call
+    op1 ∈ [op1] ∧ (run tgt0 w0 (opsH.take 4)).1.st.isOp op1 = true ∧
+    (tgt0 (run tgt0 w0 (opsH.take 4)).1.ts ⟨tgtAddr, [102], [.u64 5], opsAddr⟩).isSome = true ∧
+    (∃ ts' v, execute tgt0 opsAddr (run tgt0 w0 (opsH.take 4)).1.st (run tgt0 w0 (opsH.take 4)).1.ts [op1] op1 tgtAddr [102]
+        [.u64 5] = .ok (ts', v)) ∧
+    -- `target_failure_aborts` at the seventh
+    tgt0 (run tgt0 w0 (opsH.take 6)).1.ts ⟨tgtAddr, [103], [.u64 5], (run tgt0 w0 (opsH.take 6)).1.self⟩ = none ∧
+    -- `unauthorised_never_forwards` at the sixth and the tenth
+    (op1 ∉ ([] : List Addr) ∨ (run tgt0 w0 (opsH.take 5)).1.st.isOp op1 = false) ∧
+    (op1 ∉ [op1] ∨ (run tgt0 w0 (opsH.take 9)).1.st.isOp op1 = false) ∧
+    -- `set_changes_only_by_owner` at the third and ninth, `target_touched_only_by_execute` at the fifth
+    (step tgt0 (run tgt0 w0 (opsH.take 2)).1 (.add [owner0] op1)).1.st.isOp op1 ≠ (run tgt0 w0 (opsH.take 2)).1.st.isOp op1 ∧
+    (step tgt0 (run tgt0 w0 (opsH.take 8)).1 (.remove [owner0] op1)).1.st.isOp op1 ≠ (run tgt0 w0 (opsH.take 8)).1.st.isOp op1 ∧
+    (step tgt0 (run tgt0 w0 (opsH.take 4)).1 (.execute [op1] op1 tgtAddr [102] [.u64 5])).1.ts ≠ (run tgt0 w0 (opsH.take 4)).1.ts ∧
+    -- `add_effect` / `remove_effect`
+    (∃ st' evs, addOperator (run tgt0 w0 (opsH.take 2)).1.st [owner0] op1 = .ok (st', evs)) ∧
+    (∃ st' evs, removeOperator (run tgt0 w0 (opsH.take 8)).1.st [owner0] op1 = .ok (st', evs)) := by
+  refine ⟨?_, ?_, ?_, ?_, ?_, ?_, ?_, ?_, ?_, ?_, exists_ok_pair_of_isOk _ (by decide +kernel), ?_, ?_, ?_, ?_, ?_, ?_,
+    exists_ok_pair_of_isOk _ (by decide +kernel), exists_ok_pair_of_isOk _ (by decide +kernel)⟩ <;> decide +kernel
+
+end NonVacuity
 
 end Cgp.Props.C17
